@@ -42,7 +42,7 @@ CLAIMED = {
             "differential on operator pipelines with parameters written through the registry + registry addressability checks + model denotation at the updated values",
             "Machine-checked proof of address-book soundness on the abstract folded-graph model; the implementation's folding/optimisation is compared numerically "
             "against the unfolded compilation and the model denotation on generated circuits.",
-            "The optimisation rewrite rules are not proved (correspondence only)."),
+            "The algebraic identity behind every optimisation rewrite rule (sum collapse, Tucker, Candecomp, Kronecker-weight / tensor-dot rules, reduce-sum of outer products, log-softmax) is machine-checked over any commutative semiring (C02_rule_*, coq/Optim.v); that the Python rules implement exactly these identities (pattern matching, views, einsum strings) is tied by the four-flag differential only."),
     "C09": ("Model operators' refusal codes (coq/Ops.v res_code) compared with cirkit's exceptions on valid and malformed operands + verified structural predicates (C08) on results",
             "Refusals and result structure are decided by the executable model operators and the verified predicates; compared with the implementation on generated valid/invalid operands.",
             "Result structure is proved for all six executable operators (C09_integrate_result, C09_multiply_result, C09_differentiate_result, evidence, conjugate, concatenate) and additionally checked per instance with the verified predicates on the implementation's results."),
